@@ -54,11 +54,16 @@ Ltac leaves t := eval cbv beta iota zeta delta [ip_potential ip_derivative until
      xadd xdiv close_to sv_derivative sv_displacement dot3 cb_rate cb_derivative INR Nat.sub
      ipc_pot ipc_derivative ipc_per_lap] in t.
 Ltac let_step := match goal with
-  | |- context [let y := ?e in _] =>
-      let e' := leaves e in
-      let H := fresh "H" in let v := fresh "v" in
-      interval_intro e' with (i_prec 90) as H;
-      set (v := e) in *; change e' with v in H; clearbody v; cbv beta
+  | |- context C [let y := ?e in @?b y] =>
+      tryif is_var e then (let G := context C [b e] in change G; cbv beta)
+      else (
+        let e' := leaves e in
+        let H0 := fresh "H" in let H := fresh "H" in let v := fresh "v" in
+        interval_intro e' with (i_prec 90) as H0;
+        match type of H0 with
+        | ?lo <= _ <= ?hi => pose (v := e); assert (H : lo <= v <= hi) by exact H0; clear H0
+        end;
+        let G := context C [b v] in change G; cbv beta; clearbody v)
   end.
 Ltac resolve := repeat (first [step; cbv beta iota | let_step | layer]).
 (** the three forms of a case *)
